@@ -140,6 +140,7 @@ def rec_generate_sets(prior_bins: BinsArray, best_partition_so_far: BinsArray, i
             diff = max(combined_sums) - min(combined_sums)
             if diff < best_difference_so_far:
                 best_partition_so_far = binner.concatenate_bins(new_bin1, new_bin2)
+                best_difference_so_far = diff
 
     return best_partition_so_far
 
